@@ -11,10 +11,10 @@ pub fn prop() -> Prop {
     Prop {
         id: "C08",
         level: "model_checking",
-        rule: "all streams of <=4 (thorough <=6) rows {k,v,id} over the keys {a,b,c,absent} (ids make tied rows distinguishable) plus every stream of <=3 rows repeated cyclically to 17 and 40 rows, and streams of 257 and 1030 rows (S,T around 255..257 and the end) x 13 pipelines (none; a selection under which rows repeat; 1,2,3 sort keys with ties in both directions; unique; unique+sort on a selected name; filter; filter+sort; split; split+sort) x {no grouping, --group-by, --merge} x S in 0..3 (thorough 0..6; long: 0,1,5,16,17,39,40,41) x T in {absent,0..3} (thorough 0..6; long: 0,1,5,16,17,40,41); non-trivial = the cut S+T falls inside the unlimited result and a tie straddles it, or a grouping stage follows the limiter; distinct by construction",
+        rule: "all streams of <=4 (thorough <=6) rows {k,v,id} over the keys {a,b,c,absent} (ids make tied rows distinguishable) plus every stream of <=3 rows repeated cyclically to 17 and 40 rows, and streams of 257 and 1030 rows (S,T around 255..257 and the end) x 14 pipelines (none; sort on selected names; a selection under which rows repeat; 1,2,3 sort keys with ties in both directions; unique; unique+sort on a selected name; filter; filter+sort; split; split+sort) x {no grouping, --group-by, --merge} x S in 0..3 (thorough 0..6; long: 0,1,5,16,17,39,40,41) x T in {absent,0..3} (thorough 0..6; long: 0,1,5,16,17,40,41); for half of the (S,T) the same input is also given as two and three files; non-trivial = the cut S+T falls inside the unlimited result and a tie straddles it, or a grouping stage follows the limiter; distinct by construction",
         explanation: "differential: the rows R of the same pipeline without --skip/--take (and without grouping) are obtained from the implementation; with the limits the output must be exactly R[S..S+T), and with grouping the single collection built from exactly those rows; every case is also compared with the reference pipeline (stable multi-key sort, first key most significant)",
         assumptions: COMMON_ASSUMPTIONS.to_vec(),
-        guards: vec!["hundreds-of-rows", "cut-inside-a-tie", "limiter-before-grouper", "secondary-key-with-take", "take-zero", "skip-beyond-end", "more-rows-than-skip-plus-take-under-sort"],
+        guards: vec!["input-spread-over-files", "hundreds-of-rows", "cut-inside-a-tie", "limiter-before-grouper", "secondary-key-with-take", "take-zero", "skip-beyond-end", "more-rows-than-skip-plus-take-under-sort"],
         budget_s: (100, 2400),
         single_worker: false,
         run,
@@ -55,6 +55,10 @@ fn pipelines() -> Vec<Pl> {
         mk("unique-on-k", &|c| {
             c.selects = vec![(p(".k"), "k".into())];
             c.unique = true
+        }, false),
+        mk("select-k+sort-selected", &|c| {
+            c.selects = vec![(p(".k"), "k".into()), (p(".id"), "id".into())];
+            c.sorts = vec![s("/k/", false, ""), s("/id/", true, "DESC")]
         }, false),
         mk("unique-on-k+sort-selected-desc", &|c| {
             c.selects = vec![(p(".k"), "k".into())];
@@ -189,6 +193,33 @@ fn explore(ctx: &mut Ctx, pl: &Pl, rows: &[V], ss: &[u64], ts: &[Option<u64>]) {
                 }
                 if pipe::compare_with_model(ctx, &cfg, &inputs, &case, &got, "limited-vs-reference-pipeline") == Some(false) {
                     ok = false;
+                }
+                // the same input spread over two or three files gives the same result (the limits count rows of the run)
+                if inputs.len() >= 2 && (*s > 0 || t.is_some()) && (s + t.unwrap_or(0)) % 2 == 1 {
+                    let cutpoints: Vec<Vec<usize>> = if inputs.len() >= 3 { vec![vec![1], vec![1, 2]] } else { vec![vec![1]] };
+                    for cuts in cutpoints {
+                        let mut files: Vec<(String, Vec<u8>)> = Vec::new();
+                        let mut prev = 0usize;
+                        for (fi, c) in cuts.iter().chain(std::iter::once(&inputs.len())).enumerate() {
+                            files.push((format!("{}{fi}.json", ["q", "b", "m"][fi % 3]), crate::refmodel::pipeline::input_text(&inputs[prev..*c])));
+                            prev = *c;
+                        }
+                        // `--merge` takes an optional value: it must not be the word before the file names
+                        let mut fargs = cfg.args();
+                        if fargs.last().map(|a| a == "--merge").unwrap_or(false) {
+                            fargs.rotate_right(1);
+                        }
+                        let fcase = crate::drive::Case { args: fargs, input: crate::drive::Input::Files(files), rplan: Default::default(), wplan: Default::default() };
+                        let (_, fout) = pipe::run_rows(ctx, &fcase, &sig);
+                        ctx.case_done();
+                        ctx.guard("input-spread-over-files");
+                        if let Outcome::Rows(frows) = fout {
+                            if frows != got {
+                                ok = false;
+                                ctx.violation("limits-depend-on-how-the-input-is-spread-over-files", &format!("{sig} {} files", cuts.len() + 1), &[fcase.clone(), case.clone()], pipe::texts(&got), pipe::texts(&frows));
+                            }
+                        }
+                    }
                 }
                 ctx.outcome(if ok { if got.is_empty() { "ok-empty" } else if g.is_some() { "ok-collection" } else { "ok-rows" } } else { "violation" });
                 ctx.sample(|| serde_json::json!({"args": case.args, "rows_in": rows.len(), "unlimited": pipe::texts(&r), "got": pipe::texts(&got)}));
